@@ -225,3 +225,17 @@ PROPS["C08"] = {
 }
 _lv("C08", "Real runner, one process plus a bystander, every history of 2 (3 thorough) requests from {start, stop, restart, unknown name}, restart policy no/always, child dies at once or only when nothing else can happen (virtual time lets the restart back-off expire first); at most one live instance at every launch, and the per-request post-conditions of the statement at quiescence.",
     "Stub Commander; sequential client; preemption at labelled yields/blocking ops.")
+
+PROPS["C09"] = {
+    "harnesses": [
+        {"pkg": "app", "name": "VerifC09_State", "quick": {}, "thorough": {},
+         "bounds": {"status": "arbitrary string len<=12", "exit code": "[0,255]"}},
+        {"pkg": "app", "name": "VerifC09_Project", "quick": {"d": 0}, "thorough": {"d": 1}, "replay_repeat": 6,
+         "bounds": {"N": 2, "p0": "exit 0 / exit 3 / runs until stopped / start error; policy no or always(max 1)", "p1": "optional completed_successfully edge on p0",
+                    "stop of p0": "none or at any labelled life-cycle point", "observer": "3 reads of the public state at arbitrary scheduling points"}},
+    ],
+    "stubs": ["Commander: vCmd (ground truth: alive, last exit code, relaunches)"],
+    "assumptions": ["alive = from a successful Start() to the end of the stub command", "ground truth compared at observer reads and at quiescence, not inside the supervisor's critical sections"],
+}
+_lv("C09", "Kernel: setState/onStateChange/updateProcState for every status string. Project: every status write of the real runner on a 2-process project (exit 0/3, runs on, start error; restart policy; dependency edge; a stop at any labelled point) is checked against the legal-transition relation of the statement; an observer reads the public state at arbitrary scheduling points; at quiescence is_running, exit code, restart count and absence of transient states are compared with the stub Commander's ground truth.",
+    "Stub Commander; N=2; transition relation written from the statement (self loops ignored).")
